@@ -1202,6 +1202,108 @@ let op_rlines r = function
   | _ -> failwith "rlines: fields"
 
 
+(* ---------- op: ast (hooked, C19): getFuncAST + extractArgumentsType on parsed files ---------- *)
+let rec texpr_of = function
+  | A "f" -> M.TFunc | A "t" -> M.TInterface | A "o" -> M.TOther
+  | L [A "i"; A h] -> M.TIdent (bytes_of_hex h)
+  | L [A "s"; A h] -> M.TSelector (bytes_of_hex h)
+  | L [A "p"; x] -> M.TStar (texpr_of x)
+  | L [A "a"; l; e] -> M.TArray ((match l with A "-" -> None | x -> Some (texpr_of x)), texpr_of e)
+  | L [A "e"; e] -> M.TEllipsis (match e with A "-" -> None | x -> Some (texpr_of x))
+  | L [A "m"; k; v] -> M.TMap (texpr_of k, texpr_of v)
+  | L [A "c"; v] -> M.TChan (texpr_of v)
+  | L [A "l"; A h] -> M.TBasicLit (bytes_of_hex h)
+  | _ -> failwith "ast: texpr"
+let ast_fields_of = function
+  | L l -> List.map (function L [A n; t] -> { M.f_names = nat_of_int (int_of_string n); f_type = texpr_of t }
+                            | _ -> failwith "ast: field") l
+  | _ -> failwith "ast: fields"
+let rec node_of = function
+  | A p -> M.Node (n_of_int (int_of_string p), M.KOther, [])
+  | L (A p :: L [A "fd"; A nm; recv; params] :: ch) ->
+    M.Node (n_of_int (int_of_string p),
+            M.KFuncDecl { M.fd_name = bytes_of_hex nm;
+                          fd_recv = (match recv with A "-" -> None | x -> Some (ast_fields_of x));
+                          fd_params = ast_fields_of params },
+            List.map node_of ch)
+  | L (A p :: ch) -> M.Node (n_of_int (int_of_string p), M.KOther, List.map node_of ch)
+  | _ -> failwith "ast: node"
+
+let op_ast r = function
+  | [src; lines; expect; feat; tree; results] ->
+    let contains_sub s sub =
+      let n = String.length s and m = String.length sub in
+      let rec go i = i + m <= n && (String.sub s i m = sub || go (i + 1)) in go 0 in
+    let ls = Array.of_list (List.map int_of_string (String.split_on_char ',' lines)) in
+    let ex = Array.of_list (String.split_on_char ',' expect) and rs = Array.of_list (String.split_on_char ';' results) in
+    List.iter (tag r) (String.split_on_char ',' feat);
+    if Array.length ex <> Array.length ls || Array.length rs <> Array.length ls then failwith "ast: lengths";
+    if Array.exists (fun x -> x = "PANIC") rs then flag r "impl:panic";
+    if tree = "-" then begin
+      (* loadFile fails: nothing is parsed, every frame of the file stays unaugmented *)
+      tag r "parse-error";
+      Array.iter (fun x -> if x <> "E:parse" && x <> "PANIC" then flag r "corr:ast-select") rs
+    end else begin
+      let root = node_of (parse_sx tree) in
+      let offs = M.line_offsets (bytes_of_string (unhex src)) in
+      (* the hypothesis of C19_select_*: validated on every parsed file *)
+      if M.wf_file root then tag r "wf" else flag r "corr:ast-wf";
+      (match root with M.Node (_, _, cs) ->
+        List.iter (function
+          | M.Node (_, M.KFuncDecl d, _) ->
+            tag r "funcdecl";
+            (match d.M.fd_recv with
+             | Some [{ M.f_type = M.TStar _ }] -> tag r "recv:pointer"
+             | Some [_] -> tag r "recv:value"
+             | Some _ -> tag r "recv:not-one-field"
+             | None -> ())
+          | _ -> ()) cs);
+      (* "F:pos:name:types:ell" -> "F:pos:name" *)
+      let sel s = if starts_with s "F:" then (match String.split_on_char ':' s with a :: b :: c :: _ -> a ^ ":" ^ b ^ ":" ^ c | _ -> s) else s in
+      Array.iteri (fun i l ->
+        let ir = rs.(i) in
+        let ms = match M.source_types offs root (nat_of_int l) with
+          | M.Panic _ -> "PANIC"
+          | M.Ok M.SrcErr -> "E:overline"
+          | M.Ok M.SrcNone -> "N"
+          | M.Ok (M.SrcTypes (p, nm, ts, ell)) ->
+            Printf.sprintf "F:%s:%s:%s:%s" (string_of_n p) (hex_of_bytes nm)
+              (if ts = [] then "-" else String.concat "," (List.map hex_of_bytes ts)) (if ell then "1" else "0") in
+        if ms <> ir then begin
+          flag r (if sel ms <> sel ir then "corr:ast-select" else "corr:ast-types");
+          if r.detail = "" then r.detail <- Printf.sprintf "line %d: model %s impl %s" l ms ir
+        end;
+        (match ms with
+         | "PANIC" -> tag r "panic" | "E:overline" -> tag r "err" | "N" -> tag r "none"
+         | _ ->
+           tag r "found";
+           if String.length ms > 2 && String.sub ms (String.length ms - 2) 2 = ":1" then tag r "variadic";
+           if contains_sub ms (String.sub (hex "<unknown>") 1 18) then tag r "unknown-type");
+        (* implementation-level oracle: the function the generator knows to enclose the line *)
+        let e = ex.(i) in
+        if e <> "-" && e.[0] = 'c' then begin
+          (* inside a function literal: only the literal's frames carry this line, no declaration describes them *)
+          if starts_with ir "F:" then begin
+            flag r "prop:C19:wrong-function:func-literal";
+            if r.detail = "" then r.detail <- Printf.sprintf "line %d: in a function literal, selected %s" l (sel ir)
+          end else if ir = "N" then tag r "unaugmented:c"
+        end else if e <> "-" then begin
+          let want = "F:" ^ String.sub e 1 (String.length e - 1) in
+          if starts_with ir "F:" then begin
+            if sel ir = want then tag r ("enclosing-ok:" ^ String.make 1 e.[0])
+            else begin
+              flag r (match e.[0] with
+                | 'b' -> "prop:C19:wrong-function"
+                | 'o' -> "prop:C19:wrong-function:one-line-func"
+                | _ -> "prop:C19:wrong-function:func-keyword-line");
+              if r.detail = "" then r.detail <- Printf.sprintf "line %d: enclosing %s selected %s" l want (sel ir)
+            end
+          end else if ir = "N" then tag r ("unaugmented:" ^ String.make 1 e.[0])
+        end) ls;
+      r.detail <- Printf.sprintf "pairs=%d%s" (Array.length ls) (if r.detail = "" then "" else "; " ^ r.detail)
+    end
+  | _ -> failwith "ast: fields"
+
 let () =
   let ops : (string, res -> string list -> unit) Hashtbl.t = Hashtbl.create 16 in
   Hashtbl.replace ops "aggregate" op_aggregate;
@@ -1209,6 +1311,7 @@ let () =
   Hashtbl.replace ops "step" op_step;
   Hashtbl.replace ops "sigops" op_sigops;
   Hashtbl.replace ops "rlines" op_rlines;
+  Hashtbl.replace ops "ast" op_ast;
   Hashtbl.replace ops "scan" op_scan;
   Hashtbl.replace ops "scanseq" op_scanseq;
   Hashtbl.replace ops "cut" op_cut;
